@@ -50,7 +50,7 @@ C13OK(e) ==
   /\ (e.act = "RaiseIn") => e.raised = TRUE
   /\ (e.act = "LibCall") => (e.outcome = "ok" /\ e.inputs_unchanged /\ e.state_before = e.state_digest)   \* LibraryCallsPure
   /\ (e.act = "ForeignBatch") => (e.outcome = "ok" /\ e.ours_unchanged)
-  /\ (e.act \in {"Freeze", "Save", "DeepCopy"} /\ e.outcome = "ok") => TRUE
+  /\ (e.act \in {"Freeze", "Save", "DeepCopy", "ToDevice"} /\ e.outcome = "ok") => TRUE
 
 (* ======================== C08: quantize() and the forward recipe ================================== *)
 HyperSame(a, b) == a.hyper = b.hyper /\ a.has_bias = b.has_bias /\ a.dtype = b.dtype /\ a.device = b.device /\ a.name = b.name
@@ -112,9 +112,12 @@ FreezeOK(e) ==
   /\ (\A i \in 1..Len(e.mods) : e.mods_before[i].frozen \/ ~e.mods_before[i].q \/ e.mods_before[i].wq = "none")
         => e.mods = e.mods_before                                             \* FreezeIdempotent
 CopyOK(e) == e.outcome = "ok" /\ SameOutputs(e.out_before, e.out_after)
+\* model.to(device): same outputs, and nothing the model holds changed (weights stay packed, scales, qtypes, frozen flags, devices)
+MoveOK(e) == CopyOK(e) /\ e.mods = e.mods_before
 C09OK(e) ==
   /\ e.act = "Freeze" => FreezeOK(e)
   /\ e.act = "DeepCopy" => CopyOK(e)
+  /\ e.act = "ToDevice" => MoveOK(e)
 DeepCopyDevSig(e) == e.act = "DeepCopy" /\ e.outcome = "RuntimeError"
                      /\ \E i \in 1..Len(e.mods) : e.mods[i].frozen /\ e.mods[i].wq \in {"qint4", "qint2"}
 
@@ -253,7 +256,7 @@ DevSig(d, e) ==
                    \/ ("outsc_before" \in DOMAIN e.calib[k] /\ e.calib[k].outsc_before.s = 2)
                    \/ ("insc_before" \in DOMAIN e.calib[k] /\ e.calib[k].insc_before.s = 2))
             \/ (e.act = "Forward" /\ e.outcome = "ok" /\ (~e.out.finite \/ \E k \in 1..Len(e.recipes) : \E j \in 1..Len(e.recipes[k].out) : e.recipes[k].out[j].s = 2 \/ e.recipes[k].ref[j].s = 2))
-            \/ (e.act \in {"Freeze", "DeepCopy"} /\ e.outcome = "ok" /\ \E k \in 1..Len(e.out_before) : ~e.out_before[k].finite)
+            \/ (e.act \in {"Freeze", "DeepCopy", "ToDevice"} /\ e.outcome = "ok" /\ \E k \in 1..Len(e.out_before) : ~e.out_before[k].finite)
             \/ (e.act = "Load" /\ e.outcome = "ok" /\ \E k \in 1..Len(e.out_saved) : ~e.out_saved[k].finite)
     [] d = "Dev_C09_DeepCopyQBits" -> Judge = "C09" /\ DeepCopyDevSig(e)
     [] d \in {"Dev_C10_GroupSizeLost", "Dev_C10_LayerNormTarget", "Dev_C10_ScaleDtype"} -> Judge = "C10" /\ C10DevSig(d, e)
